@@ -75,7 +75,7 @@ static const cfg_t cfgs[] = {
     { "join(X)||exit U@ES0, P yields+observes", 0, K_ULT, 0, B_EXIT,
       { O_SAMPLE, O_YIELD, O_SAMPLE, O_JOINX, O_FREE }, { O_SAMPLE, O_JOIN },
       { 0 } },
-    { "join(X)||cancel(P) U@ES1 spin", 0, K_ULT, 1, B_SPIN,
+    { "join(X)||cancel(P) U@ES1 spin", 1, K_ULT, 1, B_SPIN,
       { O_SAMPLE, O_CANCEL, O_JOINX, O_SAMPLE, O_FREE }, { O_JOIN, O_SAMPLE },
       { 0 } },
     { "revive x2 U@ES1->ES1, X observes", 0, K_ULT, 1, B_RET,
